@@ -172,10 +172,11 @@ func (self *visitorUserNode) OnNull() error {
 		self.inskip = false
 		return nil
 	}
-	// self.stk[self.sp].val = &visitorUserNull{}
-	if err := self.incrSP(); err != nil {
-		return err
+	if self.globalFieldDesc == nil {
+		// null as the root value or as an element of a list denotes no protobuf value
+		return newError(meta.ErrDismatchType, "json null does not match the descriptor", nil)
 	}
+	// null for a field (or a map value) leaves it unset; no frame was pushed for it
 	return self.onValueEnd()
 }
 
